@@ -2,7 +2,7 @@
 from bounded import harness, identitychecks
 from bounded.corpus import corpus, BOUND_TEXT
 
-FAMILIES = ['sel', 'inc']
+FAMILIES = ['sel', 'inc', 'dvmet']
 
 
 def member(desc, tier, seed):
